@@ -206,6 +206,15 @@ func c06Pool() []m.Term {
 		{m.Bytes([]byte{})}, {m.Bytes([]byte{0})}, {m.Bytes([]byte{0}), m.Bytes([]byte{0, 0xff})}, {m.Bytes([]byte{0, 0xff})},
 		{m.Bool(true)}, {m.Bool(true), m.Bool(false)},
 	}
+	// larger sets: implementations may switch representation with size
+	var ints9, strs9, bytes9, dates9 []m.Term
+	for i := 0; i < 9; i++ {
+		ints9 = append(ints9, m.Int(int64(i+1)))
+		strs9 = append(strs9, m.Str(fmt.Sprintf("s%d", i)))
+		bytes9 = append(bytes9, m.Bytes([]byte{byte(i), 0xff}))
+		dates9 = append(dates9, m.Date(uint64(1000+i)))
+	}
+	sets = append(sets, ints9, strs9, bytes9, dates9, ints9[:8], bytes9[:8])
 	for _, s := range sets {
 		p = append(p, m.Term{K: m.KSet, Set: m.CanonSet(s)})
 	}
